@@ -11,6 +11,9 @@ def main():
     ap.add_argument("--replay", default=None)
     a = ap.parse_args()
     seed = int(os.environ.get("VERIF_SEED", "0"))
+    import warnings
+
+    warnings.simplefilter("ignore")
     from . import core
 
     try:
